@@ -71,6 +71,24 @@ theorem analyze_exact {g : Game P M} (hg : GameOK g) (hb : EvalBounded g) {cfg :
       ∃ m rest c, ms = m :: rest ∧ g.apply p m = .ok c ∧ v = -(negamax g (st.depth.toNat - 1) c)) :=
   analyze_exact_nt hg hb hpr hnc hord p hov hdepth hlive s hs
 
+/-- **`AnalyzeAll` lists exactly the first moves that attain the value** (no table, precise options, any move
+order): the value is the negamax value at the reported depth; every listed line starts with a legal move whose child
+has value `-v` one level down (so it attains `v`); and every legal generated move whose child has that value leads to
+the same position as the first move of some listed line. -/
+theorem analyzeAll_exact {g : Game P M} (hg : GameOK g) (hb : EvalBounded g) {cfg : Cfg} (hpr : Precise cfg.opts)
+    {o : Oracle M} (hnc : NoCancel o) (hord : OrderOK o)
+    (p : P) (hov : g.over p = false) (hdepth : 1 ≤ cfg.depth)
+    (hlive : ∀ d : Nat, 1 ≤ d → (d : Int) ≤ cfg.depth → Live g d p)
+    (s : Eng M) (hs : s.hasTable = false) :
+    Sat (analyzeAll g cfg o p s) (fun x =>
+      let lines := x.1.1; let v := x.1.2.1; let st := x.1.2.2
+      v = negamax g st.depth.toNat p ∧
+      (∀ line ∈ lines, ∃ m rest c, line = m :: rest ∧ g.apply p m = .ok c ∧
+        v = -(negamax g (st.depth.toNat - 1) c)) ∧
+      (∀ m ∈ g.allMoves p, ∀ c, g.apply p m = .ok c → v = -(negamax g (st.depth.toNat - 1) c) →
+        ∃ line ∈ lines, ∃ m' rest, line = m' :: rest ∧ g.apply p m' = .ok c)) :=
+  analyzeAll_exact_nt hg hb hpr hnc hord p hov hdepth hlive s hs
+
 /-- the hypotheses of the three theorems are satisfiable together: the heap game `Search.Toy.game`, and the
 model really returns a value there (heap of 5, `Depth` 4: the win is found at depth 3, value `WinBase`,
 and the deepening loop stops there) -/
